@@ -77,6 +77,20 @@ func xmssSame(c *drv.Ctx, i int64, how string, a, b *xmss.XMSS, signIdx []uint32
 }
 
 func rebuildAll(c *drv.Ctx, i int64, k *xmss.XMSS, signIdx []uint32) {
+	defer func() {
+		// a USED original (it has signed at index 0) against a wallet restored later and fast-forwarded to index 1
+		es := k.GetExtendedSeed()
+		if _, err := k.Sign([]byte("first use of the original")); err != nil {
+			return
+		}
+		s1, e1 := k.Sign([]byte("c09 message"))
+		r := xmss.NewXMSSFromExtendedSeed(es)
+		r.SetIndex(1)
+		s2, e2 := r.Sign([]byte("c09 message"))
+		if e1 != nil || e2 != nil || !bytes.Equal(s1, s2) {
+			c.Fail(i, "xmss-rebuilt-key-differs:signature-of-used-original-vs-restored-wallet", map[string]any{"height": k.GetHeight()})
+		}
+	}()
 	k1 := xmss.NewXMSSFromExtendedSeed(k.GetExtendedSeed())
 	xmssSame(c, i, "extended-seed", k, k1, signIdx)
 	k2 := xmss.NewXMSSFromExtendedSeed(misc.MnemonicToExtendedSeedBin(k.GetMnemonic()))
